@@ -153,11 +153,18 @@ def make_shave(height, prop="C19"):
 
 
 @register("stack_ctor")
-def make_ctor(height, prop="C19"):
+def make_ctor(height, prop="C19", cons=None, heur=None):
+    """the constructor under every consistency algorithm / value heuristic that may size the stacks differently"""
+
     def body(E):
         H, BS, CA, SH, Problem = _ns()
+        kw = {}
+        if cons == "shaving":
+            kw["consistency_alg_idx"] = CA.CONSISTENCY_ALG_SHAVING
+        if heur:
+            kw["dom_heuristic_idx"] = getattr(H, "DOM_HEURISTIC_" + heur.upper())
         try:
-            s = BS.BacktrackSolver(Problem([(0, 1)]), stack_max_height=height)
+            s = BS.BacktrackSolver(Problem([(0, 1)]), stack_max_height=height, **kw)
         except Obligation as o:
             E.acc.count("obligation:" + o.kind)
             _record(E, prop, "ctor-" + o.kind, "BacktrackSolver.__init__", o, height=height)
